@@ -1,0 +1,118 @@
+//go:build verif
+
+package mjml
+
+import (
+	"sync/atomic"
+	"time"
+
+	"github.com/preslavrachev/gomjml/mjml/components"
+	"github.com/preslavrachev/gomjml/mjml/options"
+)
+
+// Verification hooks. Compiled only with -tags verif; add-only.
+
+type verifYieldFn func(point string, key uint64)
+
+var verifYieldHook atomic.Pointer[verifYieldFn]
+
+// VerifSetYield installs (or, with nil, removes) the callback invoked at every
+// verifYield point of the cache path.
+func VerifSetYield(fn func(point string, key uint64)) {
+	if fn == nil {
+		verifYieldHook.Store(nil)
+		return
+	}
+	f := verifYieldFn(fn)
+	verifYieldHook.Store(&f)
+}
+
+func verifYield(point string, key uint64) {
+	if f := verifYieldHook.Load(); f != nil {
+		(*f)(point, key)
+	}
+}
+
+// VerifCacheLen returns the number of entries currently stored in the AST cache.
+func VerifCacheLen() int {
+	n := 0
+	astCache.Range(func(_, _ interface{}) bool { n++; return true })
+	return n
+}
+
+// VerifCacheClear removes every entry from the AST cache.
+func VerifCacheClear() {
+	astCache.Range(func(k, _ interface{}) bool { astCache.Delete(k); return true })
+}
+
+// VerifCacheShiftExpiries replaces every (immutable) entry by a copy whose expiry
+// lies d earlier: the look-up path then behaves as if d had passed.
+func VerifCacheShiftExpiries(d time.Duration) {
+	astCache.Range(func(k, v interface{}) bool {
+		e := v.(*cachedAST)
+		astCache.Store(k, &cachedAST{node: e.node, expires: e.expires.Add(-d)})
+		return true
+	})
+}
+
+// VerifCacheHas reports whether an entry for the template is stored (expired or not)
+// and, if so, how long it still has to live (negative when expired).
+func VerifCacheHas(template string) (bool, time.Duration) {
+	v, ok := astCache.Load(hashTemplate(template))
+	if !ok {
+		return false, 0
+	}
+	return true, time.Until(v.(*cachedAST).expires)
+}
+
+// VerifCleanupRunning reports whether a cleanup goroutine is believed to be running.
+func VerifCleanupRunning() bool {
+	cacheCleanupMutex.Lock()
+	defer cacheCleanupMutex.Unlock()
+	return cleanupCancel != nil
+}
+
+// VerifCacheConfig returns the configured TTL and cleanup interval.
+func VerifCacheConfig() (ttl, interval time.Duration) {
+	cacheConfigMutex.RLock()
+	defer cacheConfigMutex.RUnlock()
+	return astCacheTTL, astCacheCleanupInterval
+}
+
+// VerifHash exposes the cache key of a template.
+func VerifHash(template string) uint64 { return hashTemplate(template) }
+
+// VerifSingleflightLen returns the number of registered in-flight parses.
+func VerifSingleflightLen() int {
+	sfMutex.Lock()
+	defer sfMutex.Unlock()
+	return len(sfCalls)
+}
+
+// VerifNormalizeGroupColumnClassOrder exposes the class-order post-pass.
+func VerifNormalizeGroupColumnClassOrder(s string) string {
+	return normalizeGroupColumnClassOrder(s)
+}
+
+// VerifInlineRule is one parsed inline CSS rule.
+type VerifInlineRule struct {
+	Selectors    []string
+	Declarations []options.InlineStyle
+}
+
+// VerifParseInlineCSSRules exposes the inline CSS rule parser.
+func VerifParseInlineCSSRules(css string) []VerifInlineRule {
+	var out []VerifInlineRule
+	for _, r := range parseInlineCSSRules(css) {
+		out = append(out, VerifInlineRule{Selectors: r.selectors, Declarations: r.declarations})
+	}
+	return out
+}
+
+// VerifExtractInlineClass exposes the simple-class-selector recogniser.
+func VerifExtractInlineClass(selector string) (string, bool) { return extractInlineClass(selector) }
+
+// VerifApplyInlineStylesToHTML exposes the author-HTML inliner.
+func VerifApplyInlineStylesToHTML(html string, styles map[string][]options.InlineStyle) string {
+	return components.VerifApplyInlineStylesToHTML(html, styles)
+}
